@@ -50,14 +50,16 @@ func (c c18Case) String() string {
 }
 
 func genC18Case(r *rand.Rand, realtime bool) c18Case {
-	cs := c18Case{Seed: r.Int63(), Timeout: []time.Duration{100 * time.Millisecond, 300 * time.Millisecond}[r.Intn(2)],
+	// the logical cases never wait for the timeout, so it is chosen long: a
+	// loaded machine must not be able to make a healthy server look silent
+	cs := c18Case{Seed: r.Int63(), Timeout: []time.Duration{time.Second, 2 * time.Second}[r.Intn(2)],
 		Queue: []int{1, 2, 100}[r.Intn(3)], Full: r.Intn(3) == 0}
 	kinds := []string{"single", "single", "batch", "early", "early", "cancelled", "cancelled-single", "ooo", "race-clear"}
 	for i, n := 0, 3+r.Intn(8); i < n; i++ {
 		cs.Steps = append(cs.Steps, c18Step{Kind: kinds[r.Intn(len(kinds))], N: 1 + r.Intn(5)})
 	}
 	if realtime {
-		cs.Timeout = 100 * time.Millisecond
+		cs.Timeout = 200 * time.Millisecond
 		at := 1 + r.Intn(len(cs.Steps))
 		cs.Steps = append(cs.Steps[:at:at], append([]c18Step{{Kind: "idle", N: 5}}, cs.Steps[at:]...)...)
 		if !cs.Full && r.Intn(2) == 0 {
@@ -78,7 +80,7 @@ func runC18Case(c *fw.Ctx, id string, cs c18Case) {
 	var forceEarly int32 // next write waits for the response to be read before returning
 	var lastWriteReturn atomic.Value
 	var silent int32
-	var hold atomic.Value // chan struct{} for ooo/held replies
+	var hold atomic.Value      // chan struct{} for ooo/held replies
 	var clearHook atomic.Value // func(): runs inside the connection's "clear the read deadline" call
 	clearHook.Store(func() {})
 	cl.OnRequest = func(req *sim.Request) *sim.Reply {
@@ -142,13 +144,44 @@ func runC18Case(c *fw.Ctx, id string, cs c18Case) {
 		defer rc.Close()
 	}
 	opn := 0
-	type pending struct {
-		call hrpc.Call
-		ctx  context.Context
+	var stepOps []string // op ids issued by the current step
+	// arrived: every listed operation has been handled by the server (its
+	// reply may be held), hence every request write has completed
+	arrived := func(ops []string) bool {
+		want := map[string]bool{}
+		for _, o := range ops {
+			want[o] = true
+		}
+		seen := map[string]bool{}
+		cl.Log.Count(func(e *sim.Event) bool {
+			if (e.Kind == "exec" || e.Kind == "exec-fault") && want[e.OpID] {
+				seen[e.OpID] = true
+			}
+			return false
+		})
+		return len(seen) == len(want)
+	}
+	// awaitArmed waits (within the part of the read timeout that replies may be
+	// held for) until all ops have arrived and the last request write is
+	// followed by a deadline update; it reports what that update asked for.
+	awaitArmed := func(fc *faultconn.Conn, ops []string, holdStart time.Time) (allArrived, armed bool, dl, wt time.Time) {
+		for {
+			if allArrived = arrived(ops); allArrived {
+				var wrote bool
+				if armed, dl, wt, wrote = fc.ArmedAfterLastWrite(); armed && wrote {
+					return
+				}
+			}
+			if time.Since(holdStart) >= cs.Timeout*4/10 {
+				return
+			}
+			time.Sleep(2 * time.Millisecond)
+		}
 	}
 	mkCall := func(ctx context.Context, skip bool) hrpc.Call {
 		opn++
 		opid := fmt.Sprintf("%s%s-%d", sim.OpIDPrefix, id, opn)
+		stepOps = append(stepOps, opid)
 		row := []byte{byte('a' + opn%26)}
 		var opts []func(hrpc.Call) error
 		if skip {
@@ -204,10 +237,30 @@ func runC18Case(c *fw.Ctx, id string, cs c18Case) {
 		}
 		return errs
 	}
+	// slow: some step (holds excluded) took a sizeable part of the read timeout to
+	// be answered - the harness, not the client, let the server look silent
+	slow := false
 	quiescent := func(where string) bool {
-		// all issued calls have completed; give the reader a moment to finish
-		// the bookkeeping of the last response
-		time.Sleep(2 * time.Millisecond)
+		// all issued calls have completed; the reader may still be finishing the
+		// bookkeeping of the last response (or, for cancelled calls, the server
+		// may still be writing responses that will be skipped): wait for the
+		// deadline to be cleared, for at most a part of the read timeout
+		t0 := time.Now()
+		for {
+			mu.Lock()
+			cc := append([]*faultconn.Conn{}, conns...)
+			mu.Unlock()
+			clear := true
+			for _, fc := range cc {
+				if dl := fc.ReadDeadline(); !dl.IsZero() || fc.Closed() {
+					clear = false
+				}
+			}
+			if clear || time.Since(t0) >= cs.Timeout*4/10 {
+				break
+			}
+			time.Sleep(time.Millisecond)
+		}
 		mu.Lock()
 		cc := append([]*faultconn.Conn{}, conns...)
 		mu.Unlock()
@@ -215,11 +268,14 @@ func runC18Case(c *fw.Ctx, id string, cs c18Case) {
 		for i, fc := range cc {
 			c.Count("deadline_state_checks", 1)
 			if dl := fc.ReadDeadline(); !dl.IsZero() && !fc.Closed() {
-				c.Violate(id, "idle:deadline-armed-at-quiescence", fmt.Sprintf("%s: connection %d has a read deadline armed (%v from now) although every call has completed: %s",
-					where, i, time.Until(dl).Round(time.Millisecond), cs), cs)
+				c.Violate(id, "idle:deadline-armed-at-quiescence", fmt.Sprintf("%s: connection %d still has a read deadline armed (%v from now) %v after every call completed: %s",
+					where, i, time.Until(dl).Round(time.Millisecond), time.Since(t0).Round(time.Millisecond), cs), cs)
 				ok = false
 			}
-			if fc.Closed() {
+			if fc.Closed() && slow {
+				c.Inconclusive("harness-slower-than-read-timeout")
+				ok = false
+			} else if fc.Closed() {
 				c.Violate(id, "idle:connection-torn-down", fmt.Sprintf("%s: connection %d was closed although nothing was outstanding: %s", where, i, cs), cs)
 				ok = false
 			}
@@ -231,8 +287,11 @@ func runC18Case(c *fw.Ctx, id string, cs c18Case) {
 		switch st.Kind {
 		case "single", "batch", "early", "cancelled", "cancelled-single", "ooo":
 			var calls []hrpc.Call
+			stepOps = nil
 			ctx := context.Background()
 			var cancel context.CancelFunc
+			stepStart := time.Now()
+			var heldFor time.Duration
 			if st.Kind == "cancelled" || st.Kind == "cancelled-single" {
 				ctx, cancel = context.WithCancel(ctx)
 			}
@@ -253,37 +312,37 @@ func runC18Case(c *fw.Ctx, id string, cs c18Case) {
 			done := make(chan []error, 1)
 			go func() { done <- send(calls, st.Kind == "batch" || st.Kind == "cancelled") }()
 			if h != nil {
-				// requests are outstanding and unanswered: the armed deadline must cover them
-				time.Sleep(8 * time.Millisecond)
+				// requests are outstanding and unanswered: the armed deadline must cover
+				// them. Judged on the recorded order of operations of the connection -
+				// the last request write must be followed by a deadline update - and
+				// waited for, never sampled at a guessed moment (the sender may be
+				// preempted between the write and the update).
 				mu.Lock()
 				cc := append([]*faultconn.Conn{}, conns...)
 				mu.Unlock()
-				// sample only once every request written has been followed by its
-				// deadline update (the sender may be preempted between the two)
-				settled := false
-				if len(cc) > 0 {
-					fc := cc[len(cc)-1]
-					base := fc.Counts()
-					// (the replies must not be held for longer than a fraction of the read timeout)
-					for i := 0; i < 100 && !settled && time.Since(holdStart) < cs.Timeout*4/10; i++ {
-						time.Sleep(3 * time.Millisecond)
-						now := fc.Counts()
-						settled = now[faultconn.Write] == base[faultconn.Write] && now[faultconn.SetReadDeadline] == base[faultconn.SetReadDeadline] &&
-							now[faultconn.Write] > 1 && i > 0
-						base = now
-					}
+				for len(cc) == 0 && time.Since(holdStart) < cs.Timeout*4/10 {
+					time.Sleep(2 * time.Millisecond)
+					mu.Lock()
+					cc = append([]*faultconn.Conn{}, conns...)
+					mu.Unlock()
 				}
-				if !settled {
+				if len(cc) == 0 {
 					c.Inconclusive("held-requests-not-settled")
-				}
-				if tw, _ := lastWriteReturn.Load().(time.Time); settled && !tw.IsZero() && len(cc) > 0 {
+				} else {
 					fc := cc[len(cc)-1]
-					dl := fc.ReadDeadline()
-					c.Count("outstanding_deadline_checks", 1)
-					if dl.IsZero() {
-						c.Violate(id, "silent:no-deadline-while-outstanding", fmt.Sprintf("%s: requests are outstanding and unanswered but no read deadline is armed: %s", where, cs), cs)
-					} else if dl.Before(tw.Add(cs.Timeout - time.Millisecond)) {
-						c.Violate(id, "silent:deadline-too-early", fmt.Sprintf("%s: armed deadline is %v after the last send, read timeout is %v: %s", where, dl.Sub(tw), cs.Timeout, cs), cs)
+					allArrived, armed, dl, wt := awaitArmed(fc, stepOps, holdStart)
+					switch {
+					case !allArrived:
+						c.Inconclusive("held-requests-not-settled")
+					case !armed:
+						c.Count("outstanding_deadline_checks", 1)
+						c.Violate(id, "silent:no-deadline-while-outstanding", fmt.Sprintf("%s: requests are outstanding and unanswered but %v after they reached the server no read deadline follows the last request write: %s",
+							where, time.Since(holdStart).Round(time.Millisecond), cs), cs)
+					default:
+						c.Count("outstanding_deadline_checks", 1)
+						if dl.Before(wt.Add(cs.Timeout - time.Millisecond)) {
+							c.Violate(id, "silent:deadline-too-early", fmt.Sprintf("%s: armed deadline is %v after the last send, read timeout is %v: %s", where, dl.Sub(wt), cs.Timeout, cs), cs)
+						}
 					}
 				}
 				if cancel != nil {
@@ -291,7 +350,8 @@ func runC18Case(c *fw.Ctx, id string, cs c18Case) {
 				}
 				hold.Store((chan struct{})(nil))
 				close(h)
-				if held := time.Since(holdStart); held > cs.Timeout*8/10 {
+				heldFor = time.Since(holdStart)
+				if heldFor > cs.Timeout*8/10 {
 					// the harness itself kept the server silent for about a read
 					// timeout (machine load): whatever the client did is legitimate
 					c.Inconclusive("replies-held-too-long")
@@ -305,7 +365,14 @@ func runC18Case(c *fw.Ctx, id string, cs c18Case) {
 				c.Violate(id, "idle:calls-stuck", where+": calls did not complete in 10s: "+cs.String(), cs)
 				return
 			}
+			if time.Since(stepStart)-heldFor > cs.Timeout*5/10 {
+				slow = true
+			}
 			for _, e := range errs {
+				if e != nil && st.Kind != "cancelled" && st.Kind != "cancelled-single" && slow {
+					c.Inconclusive("harness-slower-than-read-timeout")
+					return
+				}
 				if e != nil && st.Kind != "cancelled" && st.Kind != "cancelled-single" {
 					c.Violate(id, "idle:call-failed", fmt.Sprintf("%s: call failed on a healthy connection: %v: %s", where, e, cs), cs)
 					return
@@ -328,6 +395,7 @@ func runC18Case(c *fw.Ctx, id string, cs c18Case) {
 			callA := mkCall(context.Background(), true)
 			opidA := fmt.Sprintf("%s%s-%d", sim.OpIDPrefix, id, opn)
 			callB := mkCall(context.Background(), true)
+			opidB := fmt.Sprintf("%s%s-%d", sim.OpIDPrefix, id, opn)
 			h := make(chan struct{})
 			var fired int32
 			var holdStart time.Time
@@ -346,12 +414,20 @@ func runC18Case(c *fw.Ctx, id string, cs c18Case) {
 				go func() { bDone <- send([]hrpc.Call{callB}, false) }()
 				time.Sleep(4 * time.Millisecond) // B is written while the clearing call is in progress
 			})
+			tA := time.Now()
 			errsA := send([]hrpc.Call{callA}, false)
+			if time.Since(tA) > cs.Timeout*5/10 {
+				slow = true
+			}
 			if atomic.LoadInt32(&fired) == 0 {
 				time.Sleep(3 * time.Millisecond)
 			}
 			wasFired := !atomic.CompareAndSwapInt32(&fired, 0, 2) // 2: too late, the hook stays quiet
 			clearHook.Store(func() {})
+			if errsA[0] != nil && slow {
+				c.Inconclusive("harness-slower-than-read-timeout")
+				return
+			}
 			if errsA[0] != nil {
 				c.Violate(id, "idle:call-failed", fmt.Sprintf("%s: call failed on a healthy connection: %v: %s", where, errsA[0], cs), cs)
 				return
@@ -363,25 +439,20 @@ func runC18Case(c *fw.Ctx, id string, cs c18Case) {
 			mu.Lock()
 			fc := conns[len(conns)-1]
 			mu.Unlock()
-			settled := false
-			base := fc.Counts()
-			for i := 0; i < 100 && !settled && time.Since(holdStart) < cs.Timeout*4/10; i++ {
-				time.Sleep(3 * time.Millisecond)
-				now := fc.Counts()
-				settled = now[faultconn.Write] == base[faultconn.Write] && now[faultconn.SetReadDeadline] == base[faultconn.SetReadDeadline] && i > 0
-				base = now
-			}
-			if !settled {
+			allArrived, armed, dl, wt := awaitArmed(fc, []string{opidB}, holdStart)
+			switch {
+			case !allArrived:
 				c.Inconclusive("held-requests-not-settled")
-			} else {
-				dl := fc.ReadDeadline()
-				tw, _ := lastWriteReturn.Load().(time.Time)
+			case !armed:
 				c.Count("outstanding_deadline_checks", 1)
 				c.Count("race_clear_checks", 1)
-				if dl.IsZero() {
-					c.Violate(id, "silent:no-deadline-while-outstanding", fmt.Sprintf("%s: a request sent while the connection was becoming idle is outstanding and unanswered, but no read deadline is armed: %s", where, cs), cs)
-				} else if dl.Before(tw.Add(cs.Timeout - time.Millisecond)) {
-					c.Violate(id, "silent:deadline-too-early", fmt.Sprintf("%s: armed deadline is %v after the last send, read timeout is %v: %s", where, dl.Sub(tw), cs.Timeout, cs), cs)
+				c.Violate(id, "silent:no-deadline-while-outstanding", fmt.Sprintf("%s: a request sent while the connection was becoming idle is outstanding and unanswered, but %v after it reached the server no read deadline is armed after its write: %s",
+					where, time.Since(holdStart).Round(time.Millisecond), cs), cs)
+			default:
+				c.Count("outstanding_deadline_checks", 1)
+				c.Count("race_clear_checks", 1)
+				if dl.Before(wt.Add(cs.Timeout - time.Millisecond)) {
+					c.Violate(id, "silent:deadline-too-early", fmt.Sprintf("%s: armed deadline is %v after the last send, read timeout is %v: %s", where, dl.Sub(wt), cs.Timeout, cs), cs)
 				}
 			}
 			hold.Store((chan struct{})(nil))
@@ -390,8 +461,13 @@ func runC18Case(c *fw.Ctx, id string, cs c18Case) {
 				c.Inconclusive("replies-held-too-long")
 				return
 			}
+			tRel := time.Now()
 			select {
 			case errs := <-bDone:
+				if errs[0] != nil && time.Since(tRel) > cs.Timeout*4/10 {
+					c.Inconclusive("harness-slower-than-read-timeout")
+					return
+				}
 				if errs[0] != nil {
 					c.Violate(id, "idle:call-failed", fmt.Sprintf("%s: call failed on a healthy connection: %v: %s", where, errs[0], cs), cs)
 					return
@@ -410,7 +486,12 @@ func runC18Case(c *fw.Ctx, id string, cs c18Case) {
 			if !quiescent(where + " (idle for " + (time.Duration(st.N) * cs.Timeout).String() + ")") {
 				return
 			}
+			tReq := time.Now()
 			if errs := send([]hrpc.Call{mkCall(context.Background(), true)}, false); errs[0] != nil {
+				if time.Since(tReq) > cs.Timeout*5/10 {
+					c.Inconclusive("harness-slower-than-read-timeout")
+					return
+				}
 				c.Violate(id, "idle:request-after-idle-failed", fmt.Sprintf("request after an idle period of %d timeouts failed: %v: %s", st.N, errs[0], cs), cs)
 				return
 			}
@@ -446,7 +527,7 @@ func init() {
 		ID:    "C18",
 		Level: "exploration",
 		Rule: "seeded request/response sequences on one connection (bare region client or full client; queue size {1,2,100}; " +
-			"read timeout {100,300} ms): steps of unbatched singles, batches, a send whose response is forced to be read before " +
+			"read timeout 1-2 s for the logical cases, 200 ms for the real-time ones): steps of unbatched singles, batches, a send whose response is forced to be read before " +
 			"the sender returns from Write, calls cancelled while unanswered (their responses are skipped), responses held and " +
 			"released together, a request sent (and left unanswered) while the deadline-clearing call of the previous response is in progress; after every step (a quiescent point) the recorded read deadline must be cleared and the " +
 			"connection open; while requests are held the armed deadline must be >= last send + timeout. Real-time cases add " +
